@@ -85,8 +85,10 @@ CHECKS = {
                 note="trusted base: the independent quoter and the /bin/sh probe; real processes on this machine"),
     "C20": dict(cat="exploration", engine="E4-direct", tech="property-based testing (Hypothesis): multiset/order/idempotence oracle for events, min/max/mean reference for statistics through a scripted monitor, partition oracle for tallies",
                 text="Generated event multisets over several files (incl. merged per-job logs), generated sample sequences through a scripted "
-                     "monitor (aggregated and periodic paths), generated result sets through the summary writers.",
-                note="trusted base: scripted stand-in for jade.resource_monitor.ResourceMonitor (the psutil boundary); non-negative samples"),
+                     "monitor (aggregated and periodic paths), generated result sets through the summary writers; plus whole generated "
+                     "submissions in the simulation world with event logging and node resource monitoring on, every record reaching an "
+                     "*events.log file compared with the consolidated summary (open known finding K2).",
+                note="trusted base: scripted stand-in for jade.resource_monitor.ResourceMonitor (the psutil boundary); non-negative samples; E1 for the flow sub-case"),
 }
 
 NOT_BUILT = "check not built yet (work in progress; see DESIGN.md section 9 build order)"
